@@ -1251,10 +1251,25 @@ def rule_solve_scalar(rep: Report, repo: Repo):
     if len(e_names) != 1:
         raise AnalysisError(R, "solve_sylvester_2nd_quant: energies passed to solve_scalar not understood")
     A, B = next(iter(e_names))
-    un = [n for n in own_nodes(inner) if isinstance(n, ast.Assign) and isinstance(n.targets[0], ast.Tuple) and norm(n.targets[0]) == f"({A}, {B})"]
     from .resolve import env_at as _env_at, rtext as _rtext
-    e = [_rtext(n.value, _env_at(n, inner)) for n in un]
-    rep.check(e == ["(eigs[index[0]], eigs[index[1]])"], R, "second_quantization::solve_sylvester_2nd_quant eigs_A, eigs_B = eigs[index[0]], eigs[index[1]]", str(e), loc(inner))
+    # the FIRST binding of the two energy lists (later rebindings fill an empty block with zeros), whether unpacked together or one by one
+    def first_binding(nm):
+        for n in own_nodes(inner):
+            if isinstance(n, ast.Assign):
+                for t in n.targets:
+                    if isinstance(t, ast.Name) and t.id == nm:
+                        return _rtext(n.value, _env_at(n, inner))
+                    if isinstance(t, ast.Tuple) and isinstance(n.value, ast.Tuple) and len(t.elts) == len(n.value.elts):
+                        for tt, vv in zip(t.elts, n.value.elts):
+                            if isinstance(tt, ast.Name) and tt.id == nm:
+                                return _rtext(vv, _env_at(n, inner))
+        return None
+    firsts = [(nm, min((n.lineno for n in own_nodes(inner) if isinstance(n, ast.Assign) and any(
+        isinstance(x, ast.Name) and x.id == nm and isinstance(x.ctx, ast.Store) for t in n.targets for x in ast.walk(t))), default=0)) for nm in (A, B)]
+    e = [first_binding(A), first_binding(B)]
+    if None in e:
+        raise AnalysisError(R, "solve_sylvester_2nd_quant: binding of the energy lists not found")
+    rep.check(e == ["eigs[index[0]]", "eigs[index[1]]"], R, "second_quantization::solve_sylvester_2nd_quant eigs_A, eigs_B = eigs[index[0]], eigs[index[1]]", str(e), loc(inner))
 
 
 # ---------------------------------------------------------------------------
